@@ -117,6 +117,18 @@ def multicallGet (results : List PyVal) (i : Nat) : PyM PyVal :=
   | some item => proxyResult item
   | Option.none => raise "IndexError" (.str "list index out of range")
 
+/-- `MultiCall._request` after the transport: an empty reply gives no results; a single object
+    answering the whole batch (e.g. the server's parse error) is checked at once — its error is raised by
+    the batch call itself — and otherwise kept as the only result; an array is the result list. -/
+def multicallRun (responses : PyVal) : PyM (List PyVal) :=
+  if !responses.truthy then pure []
+  else match responses with
+    | .dict _ => do
+      let _ ← checkForErrors responses
+      pure [responses]
+    | .list xs => pure xs
+    | _ => raise "Unmodelled" (.str "batch reply that is neither an object nor an array")
+
 /-- `AppError.data()`: `self.args[0][2]`. -/
 def appErrorData (e : PyErr) : Option PyVal :=
   match e.cls, e.arg with
